@@ -388,13 +388,15 @@ def scaled(es):
 
 
 def unit(es):
-    """g: the values as they are; gs: divided by 8; gt / gh: times 2^-60 / 2^40 (one case in 16 each); a function of the edges"""
+    """g: the values as they are; gs: divided by 8; gt / gh: times 2^-60 / 2^40 (one case in 16 each); go: plus 2^26 (one case in
+    8: the values then need more than the 24 significant bits of a float, distinct values stay distinct only in double
+    precision; the property is invariant under translation of the values); a function of the edges"""
     if not es:
         return "g"
     h = sum((u * 31 + v * 17 + w) for (u, v, w) in es)
     if any(abs(w) > (1 << 20) for (_, _, w) in es):          # wide values keep their unit (2^44 * 2^40 would leave the exact range)
         return "gs" if h % 4 == 0 else "g"
-    return "gs" if h % 4 == 0 else "gt" if h % 16 == 1 else "gh" if h % 16 == 2 else "g"
+    return "gs" if h % 4 == 0 else "gt" if h % 16 == 1 else "gh" if h % 16 == 2 else "go" if h % 16 in (3, 7) else "g"
 
 
 def gline(es):
@@ -416,14 +418,14 @@ def run_harnesses(bins, cases):
     """dict tag -> list of answer strings (one per case)"""
     lines = [gline(es) for (_, es, _) in cases]
     chunks = [lines[i:i + 400] for i in range(0, len(lines), 400)] or [[]]
-    jobs = [(tag, ci) for (tag, _) in VARIANTS for ci in range(len(chunks))]
+    jobs = [(tag, ci) for (tag, _) in VARIANTS if tag in bins for ci in range(len(chunks))]
 
     def work(j):
         tag, ci = j
         # a chunk normally takes well under a second; a hang (e.g. a loop that no longer advances) costs one timeout per restart
         r = core.run_grouped(bins[tag], [("g", chunks[ci])], timeout=900, max_restarts=2, cpu=30)   # 30 s of CPU, wall time only as a backstop
         return tag, ci, r[0][1]
-    out = {tag: [None] * len(chunks) for (tag, _) in VARIANTS}
+    out = {tag: [None] * len(chunks) for (tag, _) in VARIANTS if tag in bins}
     for tag, ci, ans in core.parallel_map(work, jobs, workers=16):
         out[tag][ci] = ans
     return {tag: [a for ch in out[tag] for a in ch] for tag in out}
@@ -468,6 +470,8 @@ def evaluate(ctx, res, bins, orc, cases, record=True):
         cap, nsimp, full = choose_cap(es, budget)
         groups = {}
         for (tag, _) in VARIANTS:
+            if tag not in hs:
+                continue
             p = parse_h(hs[tag][ci])
             if p is None:
                 viol.append((ci, "crash-or-exception", "variant %s crashed, hung (30 s timeout) or threw: answer %r" % (tag, hs[tag][ci]), tag, "ORD ...|RES ...", hs[tag][ci]))
@@ -476,6 +480,8 @@ def evaluate(ctx, res, bins, orc, cases, record=True):
         # the order seen from inside (tagged builds) must be the order of the replicated sort (double builds)
         for dense in "SD":
             for tbb in "NT":
+                if "d" + dense + tbb not in hs or "t" + dense + tbb not in hs:
+                    continue
                 a, b = parse_h(hs["d" + dense + tbb][ci]), parse_h(hs["t" + dense + tbb][ci])
                 if a and b and a[0] != b[0]:
                     viol.append((ci, "processing-order-not-reproduced", "order observed through the Delay functor differs from the replicated sort "
@@ -552,7 +558,7 @@ def evaluate(ctx, res, bins, orc, cases, record=True):
             res.count("simplices:%s" % ("not-built" if cap < 0 else "<=16" if nsimp <= 16 else "<=64" if nsimp <= 64 else "<=130" if nsimp <= 130 else "<=190"))
             res.count(("dims-compared:0..%d%s" % (cap, "" if full else " (truncated)")) if cap >= 0 else "dims-compared:none (components only)")
             ws = [w for (_, _, w) in es]
-            res.count("values-fed:%s" % {"g": "integers", "gs": "w/8 (dyadic)", "gt": "w * 2^-60", "gh": "w * 2^40"}[unit(es)])
+            res.count("values-fed:%s" % {"g": "integers", "gs": "w/8 (dyadic)", "gt": "w * 2^-60", "gh": "w * 2^40", "go": "w + 2^26"}[unit(es)])
             res.count("ties:%s" % ("none" if len(set(ws)) == len(ws) else "all-equal" if len(set(ws)) == 1 else "heavy" if len(set(ws)) * 2 <= len(ws) else "some"))
             for p in groups:
                 kept = len(p[1].split()) // 3
@@ -592,7 +598,24 @@ def check(ctx, replay=None):
     TIER[0] = ctx.tier
     if not getattr(ctx, "skip_proof", False):
         ctx.prove(["Extract_C12.vo"])
-    bins = ctx.build_many([("c12_drv.cpp", tag, list(fl) + (["-DNDEBUG"] if tag.endswith("T") else [])) for (tag, fl) in VARIANTS])
+    # every variant is built on its own: a change of the header that no longer compiles with the harness's index-tagged value type
+    # (or with one flag combination) must not stop the search for a failing input with the variants that still build; the
+    # build failure itself is reported at the end (the correspondence no longer checks for that variant)
+    bins, build_errors = {}, []
+
+    def build_one(job):
+        tag, fl = job
+        try:
+            return tag, ctx.build_harness("c12_drv.cpp", tag, list(fl) + (["-DNDEBUG"] if tag.endswith("T") else [])), None
+        except core.CheckError as e:
+            return tag, None, str(e)
+    for tag, b, err in core.parallel_map(build_one, list(VARIANTS)):
+        if b is not None:
+            bins[tag] = b
+        else:
+            build_errors.append((tag, err))
+    if not any(t in bins for t in ("dSN", "dDN", "dST", "dDT")):
+        raise core.CheckError(build_errors[0][1])
     orc = ctx.build_oracle("c12")
     corpus = []
     cdir = os.path.join(core.ROOT, "corpus", "C12")
@@ -611,6 +634,10 @@ def check(ctx, replay=None):
     seen_kinds = {}
     for (ci, kind, what, vtag, exp, obs) in viol:
         seen_kinds.setdefault(kind, []).append((ci, what, vtag, exp, obs))
+    for (tag, err) in build_errors[:1]:
+        res.violation("correspondence-build", "the harness no longer builds against the current source for the variant(s) %s (the other variants "
+                      "were run): %s" % (", ".join(t for t, _ in build_errors), err[-1500:]), {"variants": [t for t, _ in build_errors]},
+                      expected="harness builds", observed="build failed", no_input=True)
     PROPERTY_KINDS = {"persistence-diagram-changed", "components-changed", "output-edge-not-input-or-value-lowered", "crash-or-exception"}
     only_correspondence = not (set(seen_kinds) & PROPERTY_KINDS)
     for kind, lst in seen_kinds.items():
